@@ -37,7 +37,7 @@ class Dump:
             import plistlib
             from . import encode as E
             strings = sorted({pr for _, _, pr in logs} | {'msg%d' % i for i in range(len(logs))})
-            idx = {s_: i + 1 for i, s_ in enumerate(strings)}
+            idx = {s_: i for i, s_ in enumerate(strings)}         # string numbers start at 0
             evs = []
             for i, (t, pid, pr) in enumerate(logs):
                 d = {'cm': idx['msg%d' % i], 't': 'logEvent', 's': i, 'tid': world.ctid(t) if t else 0, 'ns': 1,
